@@ -224,10 +224,9 @@ func addSubscription(m *match.Match, s *pb.SubscriptionList, c *matchClient) (re
 	var removes []func()
 	prefix := path.ToStrings(s.Prefix, true)
 	for _, sub := range s.Subscription {
+		// A subscription without a path addresses the prefix itself, as in the
+		// initial walk (path.CompletePath).
 		p := sub.GetPath()
-		if p == nil {
-			continue
-		}
 		// Copy: every query (and its remove function) needs its own slice.
 		query := append([]string{}, prefix...)
 		if origin := p.GetOrigin(); s.Prefix.GetOrigin() == "" && origin != "" {
